@@ -269,19 +269,30 @@ def run_constraint(case, ctx: Ctx):
 
     # inverse o transform on the interior (|raw| <= 10).  Tolerance: 1e-9 (DESIGN C17) plus the unavoidable
     # amplification of the rounding of the constrained value (eps * magnitude) by 1/slope of the map.
-    mid = np.abs(raws) <= 10
+    # Towards a finite lower bound the interior extends as far as the constrained value can still be told from the bound: with
+    # lower = 0 (lengthscales, noises, ...) that is the whole range down to raw = -700 (value ~ 1e-304 * width), and a value of 1e-20 is
+    # an interior value like any other.  Points whose offset from the bound is lost to the rounding of lower + offset are skipped.
+    has_lo = bool(np.isfinite(lo_b).all())
+    mid = (raws >= (-700.0 if has_lo else -10.0)) & (raws <= 10)
     if mid.any():
         idx = np.nonzero(mid)[0]
+        Rm = R[idx]
+        tm = t_np[idx]
+        Lm = np.broadcast_to(lo_b, Rm.shape) if has_lo else np.zeros(Rm.shape)
+        deep = Rm < -10
+        with np.errstate(invalid="ignore"):
+            resolvable = ~deep | ((tm - Lm) > 1e4 * EPS * np.abs(Lm))
         with ctx.observing("inverse_transform"):
             back = _np(c.inverse_transform(t[idx]))
-        Rm = R[idx]
         sl = np.broadcast_to(_slope(base, cls, Rm, lo_b, hi_b), Rm.shape)
-        mag = np.abs(t_np[idx]) + scale
+        mag = np.abs(tm) + np.where(deep, np.abs(Lm), scale)
         tol = 1e-9 * np.maximum(1.0, np.abs(Rm)) + 64 * EPS * mag / np.maximum(sl, 1e-300)
         err = np.abs(back - Rm)
-        bad = ~(err <= tol)
+        bad = ~(err <= tol) & resolvable
         ctx.check("inverse_of_transform", not bad.any(),
                   f"inverse_transform(transform(raw)) != raw: raw={Rm[bad][:3]} got={back[bad][:3]} tol={tol[bad][:3]}", kind="value")
+        if (deep & resolvable).any():
+            ctx.label("inverse.deep_interior")
 
     # transform o inverse on the open interval
     qs = np.array(case["qs"], float)
@@ -311,6 +322,7 @@ def run_constraint(case, ctx: Ctx):
 RAW = st.one_of(
     st.floats(allow_nan=False, allow_infinity=False),
     st.floats(min_value=-40, max_value=40),
+    st.floats(min_value=-700, max_value=-30),
     st.sampled_from([0.0, -0.5, 0.5, 3.0, -3.0, 10.0, -10.0, 19.999, 20.0, 20.000000001, -20.0, 36.7, 37.0, -37.0, 40.0, -40.0,
                      709.0, 710.0, -709.0, -710.0, 745.0, -745.2, 800.0, -800.0, 1e30, -1e30, 1.7e308, -1.7e308, 5e-324, -5e-324]),
 )
